@@ -55,7 +55,10 @@ def _rwhere(rng):
 
 def generate(rng, tier):
     hi = 8 if tier == "quick" else rng.choice([6, 8, 12, 12, 26])
-    cfg = {"faults": rng.random() < 0.7, "t0": rng.uniform(0, 4.29e9), "precision0": 64 if rng.random() < 0.9 else 32}
+    cfg = {"faults": rng.random() < 0.7, "t0": rng.uniform(0, 4.29e9), "precision0": 64 if rng.random() < 0.9 else 32,
+           # lean: the harness makes no scaffolding call of the writer before a fault-free write (its complete
+           # image is then what that write left on the disk), so the library sees the caller's calls only
+           "lean_writes": rng.random() < 0.5}
     fmts = [f for f in FORMATS if rng.random() < 0.6] or [rng.choice(FORMATS)]
     npaths = rng.randint(1, 3)
     paths = [f"/sim/p{i}" for i in range(npaths)]
@@ -95,8 +98,14 @@ def generate(rng, tier):
                 op.pop("prep", None)
                 if rng.random() < 0.5:
                     # ... after working on it a little more
-                    op["restep"] = [rng.choice([["mask"], ["spike_clip"], ["fill"], ["edit"], ["dropout_percentage"]])
+                    op["restep"] = [rng.choice([["mask"], ["spike_clip"], ["fill"], ["edit"], ["dropout_percentage"],
+                                                ["swap"], ["flip"], ["fill"]])
                                     for _ in range(rng.randint(1, 2))]
+                    if any(st[0] in ("swap", "flip", "fill") for st in op["restep"]) and rng.random() < 0.7:
+                        # edits that keep the sample count, the sum and the length of the text: the same file is
+                        # read, rewritten in place with the edited map, and read again
+                        op["path"] = p = ops[j]["path"]
+                        ops.append({"op": "read", "path": p, "via": rng.choice(["io", "io", "ifg"])})
                 if (op["fmt"] == "codev") != (ops[j]["fmt"] == "codev"):
                     op["fmt"] = ops[j]["fmt"]          # value ranges are chosen per format family
             if cfg["faults"] and rng.random() < 0.35:
@@ -162,11 +171,40 @@ def exhaustive_plans(tier="thorough"):
                                            "map": {"shape": shp, "seed": 1000 + k, "vals": vals, "nan": nan, "mag": 250.0},
                                            "dx": 0.25, "wvl": 0.6328 if k % 3 else 1.55},
                                           {"op": "cutscan", "path": "/sim/x", "via": via, "header_stride": 1}]})
+    # every sample count from 1 up to a few hundred (quick) / a few thousand (thorough) through the text
+    # format, one row each: whatever the writer's records-per-line and the reader's reassembly do at a
+    # boundary (a remainder of zero, one value alone on the last line) is met whatever the line width is
+    top = 660 if tier == "quick" else 2400
+    per = 44 if tier == "quick" else 60
+    for lo in range(1, top + 1, per):
+        ops = []
+        for N in range(lo, min(lo + per, top + 1)):
+            shp = [1, N] if N % 5 else ([5, N // 5] if N % 2 else [N // 5, 5])
+            ops.append({"op": "write", "fmt": "codev", "path": "/sim/s", "dx": 0.25, "wvl": 0.6328,
+                        "map": {"shape": shp, "seed": 5000 + N, "vals": "mixed" if N % 3 else "neg",
+                                "nan": "none" if N % 4 else "scatter", "mag": 250.0}})
+            ops.append({"op": "read", "path": "/sim/s", "via": "io"})
+        plans.append({"prop": PROP, "tier": tier, "exhaustive": True,
+                      "config": {"faults": False, "t0": 1.7e9, "precision0": 64}, "ops": ops})
     return plans
 
 
 # ---------------------------------------------------------------------------
 # world
+
+def _rearrange(np, a, how, g):
+    """In-place edits that keep the multiset of samples (hence their sum, their count of NaNs and the
+    length of any text made of them): exchange two samples, or turn the map by 180 degrees."""
+    if a.size < 2:
+        return
+    if how == "flip":
+        a[...] = a[::-1, ::-1].copy()
+    else:
+        f = a.reshape(-1) if a.flags.c_contiguous else None
+        i0, i1 = (int(x) for x in g.choice(a.size, 2, replace=False))
+        p0, p1 = np.unravel_index(i0, a.shape), np.unravel_index(i1, a.shape)
+        a[p0], a[p1] = a[p1].copy(), a[p0].copy()
+
 
 def build_map(np, spec, wvl, fmt):
     m, n = spec["shape"]
@@ -698,12 +736,25 @@ def execute(plan):
                                 obj.data[gm.random(obj.data.shape) < 0.3] = np.nan      # the user edits the data directly
                             elif step[0] == "dropout_percentage":
                                 obj.dropout_percentage
+                            elif step[0] in ("swap", "flip"):
+                                _rearrange(np, obj.data, step[0], gm)
                     except Exception:
                         pass
                     if obj.data.ndim == 2 and obj.data.size > 0:
                         holder["z"] = obj.data
                         holder["pristine"] = np.array(obj.data, copy=True)
                     bump(probes, "object_processed_between_saves")
+                elif obj is None and fmt != "ifg" and op.get("restep") and holder["z"].dtype.kind == "f":
+                    # the caller's own array, edited in place between two saves
+                    zz = holder["z"]
+                    for step in op["restep"]:
+                        gm = np.random.Generator(np.random.PCG64(op["map"]["seed"] + 11 + i))
+                        if step[0] in ("swap", "flip"):
+                            _rearrange(np, zz, step[0], gm)
+                        elif step[0] == "fill" and op["map"]["vals"] != "huge":
+                            zz[np.isnan(zz)] = 0.0
+                    holder["pristine"] = np.array(zz, copy=True)
+                    bump(probes, "array_edited_between_saves")
             else:
                 z0 = build_map(np, op["map"], op["wvl"], fmt)
                 holder = {"z": z0, "pristine": z0.copy(), "ifg": None}
@@ -753,13 +804,18 @@ def execute(plan):
             # fault-free dry run to a scratch path: the complete byte image of this write
             full = None
             dry_exc = None
-            try:
-                _write(w, "zygo_path" if fmt in ("zygo_file",) else fmt, "/sim/.dry", zfix.copy(), dx_eff, wvl_eff, op.get("cv"),
-                       None, None, op.get("intensity"))
-                full = w.disk.files.pop("/sim/.dry")
-            except Exception as e:
-                dry_exc = e
-                w.disk.files.pop("/sim/.dry", None)
+            lean = bool(cfg.get("lean_writes")) and not fault and zfix.size <= 120000
+            if lean:
+                full = b""                       # filled in from the disk after the write itself
+                bump(probes, "write_without_scaffolding_call")
+            else:
+                try:
+                    _write(w, "zygo_path" if fmt in ("zygo_file",) else fmt, "/sim/.dry", zfix.copy(), dx_eff, wvl_eff,
+                           op.get("cv"), None, None, op.get("intensity"))
+                    full = w.disk.files.pop("/sim/.dry")
+                except Exception as e:
+                    dry_exc = e
+                    w.disk.files.pop("/sim/.dry", None)
             if full is None:
                 # the writer cannot write this map at all
                 ev["out"] = "writer-raised:" + type(dry_exc).__name__
@@ -778,7 +834,7 @@ def execute(plan):
                      "dx": dx_eff, "wvl": wvl_eff,
                      "full": full, "f32": zfix.dtype == np.float32}
             entry["layout"] = {"ok": False, "pos": []} if huge else _layout(w, fmt, z.shape, dx_eff, wvl_eff)
-            spans = _sample_spans(w, entry)
+            spans = None if lean else _sample_spans(w, entry)
             if fault:
                 at = _resolve(fault["where"], entry, spans)
                 if fault["kind"] == "eio_close":
@@ -822,6 +878,20 @@ def execute(plan):
             now = w.disk.files.get(path)
             ev["len"] = -1 if now is None else len(now)
             ev["fp"] = core.fp_bytes(now or b"")
+            if lean:
+                if out == "ok" and now is not None:
+                    full = now
+                    entry["full"] = now
+                else:
+                    # the writer failed although nothing was injected
+                    ev["out"] = "writer-" + out
+                    if not bool(np.all(np.isnan(zfix))):
+                        viol("write-raised", i, "codev" if fmt == "codev" else "zygo", "none",
+                             exc=out.split(":")[-1], msg="", vals=op["map"]["vals"], nan=op["map"]["nan"])
+                    model.pop(path, None)
+                    w.disk.files.pop(path, None)
+                    events.append(ev)
+                    continue
             if out == "ok" and fault and (now is None or (len(now) < len(full) and full.startswith(now))):
                 # an I/O error happened during this write and the writer returned as if nothing had:
                 # the caller has no way to know the file is incomplete
@@ -1033,7 +1103,8 @@ def simplifiers(plan):
 
 EXHAUSTIVE_NOTE = ("every cut offset 0..L (header stride 1) of the complete file, for a fixed family of small maps "
                    "(thorough: 12 shapes x 8 value/NaN patterns x 5 writer/reader pairs x 2 precisions; quick: 4 shapes x 2 "
-                   "patterns x 4 pairs): this family is enumerated completely; everything else is sampled")
+                   "patterns x 4 pairs), plus a write/read round trip of the text format for every sample count 1..2400 "
+                   "(quick: 1..660): this family is enumerated completely; everything else is sampled")
 
 RULE = ("A run is a seeded history of 2-12 writes (Zygo .dat via path and via file object, Interferogram.save_zygo_dat, "
         "Code V grid INT), reads (prysm.io readers and Interferogram.from_zygo_dat), post-hoc cuts, cut scans and clock "
